@@ -8,6 +8,18 @@ VF_NOTE = ("Trusted: Coq kernel, extraction, harness/vf.c (page table and refere
            "The byte-level page search/bisection is abstracted to its result on the page table (validated by the tie on every run, not proved). "
            "Print Assumptions: closed under the global context.")
 CHECKS = {
+ "C18": {
+  "category": "proof",
+  "text": "PARTIAL. Proved (Interleave.v, generic in the step function; instantiated with the encoder, decoder, vorbisfile and bitrate models): for ALL worlds of instances with "
+          "disjoint state and ALL schedules, each instance ends in the state and produces the outputs of running its own operations alone; two schedules with the same "
+          "per-instance operation lists are indistinguishable. That is a statement about pure models. The clauses no model can exhibit are explored on the implementation on every "
+          "run: encoder/decoder/vorbisfile jobs solo vs 2..16 threads with random yields (hashes of every byte, sample, return code and position must be equal), the same with "
+          "malloc fill 0x00/0xAA/0xFF/0x7F and with clang auto-var-init pattern vs zero (stack and alloca), a ThreadSanitizer build, and a foreign thread running with "
+          "FE_UPWARD. A scan for writable file-scope objects is recorded in the evidence (informational).",
+  "note": "Trusted: Coq kernel; harness/c18.c; pthreads scheduling (sampled, not exhaustive); TSan; libogg assumed thread-safe for disjoint objects. "
+          "The runtime clauses are validated by exploration, not proved. Print Assumptions: closed.",
+  "technique": "Coq proof (interleaving invisibility, induction over schedules) + concurrent-vs-solo differential runs, heap/stack poisoning, ThreadSanitizer",
+ },
  "C15": {
   "category": "proof",
   "text": "Proved on EncSetup.v over the template table of the CURRENT source (SrcFacts.setup_templates is regenerated from lib/vorbisenc.c + lib/modes on every run): "
